@@ -7,12 +7,17 @@
 //! Direction B: the reference builds the encryption dictionary and encrypts (salts / IVs / padding from
 //! a fixed menu, no RNG); lopdf's `decrypt(user)` / `decrypt(owner)` must restore the plaintext.
 //! Both directions are run on the in-memory document and through lopdf's writer + loader.
+//! Direction K ("kept state"): a document protected by the reference (or by lopdf) is opened by lopdf with the
+//! user or the owner password (or by the loader's empty password); the state lopdf keeps in
+//! `Document::encryption_state` is re-encoded and used to encrypt the document again; the reference must find
+//! the same P/O/U/OE/UE/Perms/V/R/key length/filters, authenticate both passwords, derive the same key and
+//! decrypt the result to the plaintext.
 use lopdf::{Document, Object, ObjectId};
 use serde_json::{json, Value};
 use std::collections::BTreeMap;
 use std::sync::atomic::{AtomicU64, Ordering};
 use vharness::objjson::hex;
-use vharness::refcrypt::menu::{self, Config, DocKind, Ver, F};
+use vharness::refcrypt::menu::{self, doc_from_portable, doc_to_portable, Config, DocKind, IdShape, Ver, F};
 use vharness::refcrypt::{self as rc, Direction, EncDict, IvSource, MakeParams, Quirks, Role};
 use vharness::{cmp, util, Mode, Run};
 
@@ -39,9 +44,29 @@ struct Case {
     /// Algorithm 2.B ends in a particular way (see `boundary_salts`); None = salts from `pattern`
     salts: Option<[[u8; 8]; 4]>,
     salt_class: Option<String>,
+    /// shape of the trailer's /ID entry
+    id_shape: IdShape,
+    /// K: who protected the document first ('A' lopdf, 'B' the reference)
+    kept_source: char,
+    /// K: how lopdf opened it: "user", "owner", or "loader" (the loader's own decrypt with the empty password)
+    kept_role: String,
 }
 
 impl Case {
+    /// the plaintext document of this case
+    fn plain(&self) -> Document {
+        let id0 = menu::id_of_len(self.id_len);
+        let mut d = menu::build_doc(self.kind, &self.cfg, &id0, !self.via_file);
+        if self.id_shape != IdShape::Hex {
+            self.id_shape.apply(&mut d, &id0);
+        }
+        d
+    }
+    /// first element of the file identifier as the algorithms see it (empty when there is none: only
+    /// revisions 5 and 6, which never use it, are combined with such documents)
+    fn id0(&self) -> Vec<u8> {
+        self.id_shape.id0(&menu::id_of_len(self.id_len)).unwrap_or_default()
+    }
     fn to_json(&self) -> Value {
         json!({
             "direction": self.dir.to_string(), "config": self.cfg.to_json(), "doc": self.kind.name(), "pair": self.pair,
@@ -49,6 +74,7 @@ impl Case {
             "via_file": self.via_file, "table": self.table, "pattern": self.pattern, "write_length": self.write_length,
             "omit_identity": self.omit_identity,
             "salts": self.salts.map(|s| s.iter().map(|x| hex(x)).collect::<Vec<_>>()), "salt_class": self.salt_class,
+            "id_shape": self.id_shape.name(), "kept_source": self.kept_source.to_string(), "kept_role": self.kept_role,
         })
     }
     fn from_json(v: &Value) -> Case {
@@ -73,6 +99,9 @@ impl Case {
                 })
             }),
             salt_class: v["salt_class"].as_str().map(|s| s.to_string()),
+            id_shape: IdShape::from_name(v["id_shape"].as_str().unwrap_or("hex")),
+            kept_source: v["kept_source"].as_str().and_then(|s| s.chars().next()).unwrap_or('B'),
+            kept_role: v["kept_role"].as_str().unwrap_or("user").to_string(),
         }
     }
 }
@@ -92,6 +121,7 @@ struct Counters {
     ref_streams: AtomicU64,
     lopdf_opens: AtomicU64,
     skipped: AtomicU64,
+    kept_not_applicable: AtomicU64,
 }
 
 fn inc(a: &AtomicU64, n: u64) {
@@ -101,6 +131,8 @@ fn inc(a: &AtomicU64, n: u64) {
 fn expected_text(item: &str) -> &'static str {
     if item.starts_with("A:field") {
         "the entry lopdf writes equals the value the ISO 32000 algorithm defines (deterministic fields) or validates under it (randomised fields)"
+    } else if item.starts_with("K:") {
+        "the state lopdf keeps after decrypting re-encodes to the parameters of the original protection (V, R, key length, P, O, U, OE, UE, Perms, EncryptMetadata, filters, file key), and the document encrypted again with it is authenticated by the reference handler with the user and the owner password, gives the same file key and decrypts to the plaintext"
     } else if item.starts_with("A:") {
         "the reference handler authenticates with this password and decrypts every string and stream of the lopdf-encrypted document to the plaintext"
     } else {
@@ -168,11 +200,11 @@ struct Artefact {
 
 impl Artefact {
     fn to_json(&self) -> Value {
-        json!({"encrypted_document": vharness::objjson::doc_to_json(&self.container), "lopdf_file_key": hex(&self.lopdf_file_key)})
+        json!({"encrypted_document": doc_to_portable(&self.container), "lopdf_file_key": hex(&self.lopdf_file_key)})
     }
     fn from_json(v: &Value) -> Artefact {
         Artefact {
-            container: vharness::objjson::doc_from_json(&v["encrypted_document"]),
+            container: doc_from_portable(&v["encrypted_document"]),
             lopdf_file_key: vharness::objjson::unhex(v["lopdf_file_key"].as_str().unwrap_or("")),
         }
     }
@@ -180,8 +212,7 @@ impl Artefact {
 
 /// Direction A, lopdf's half: encrypt the plaintext document with the real library.
 fn a_produce(c: &Case) -> Result<Result<Artefact, Vec<Fail>>, String> {
-    let id0 = menu::id_of_len(c.id_len);
-    let plain = menu::build_doc(c.kind, &c.cfg, &id0, !c.via_file);
+    let plain = c.plain();
     let r = c.cfg.revision();
     rc::prep(r, &c.user)?;
     rc::prep(r, &c.owner)?;
@@ -217,8 +248,8 @@ fn run_a(c: &Case, k: Option<&Counters>) -> Result<Vec<Fail>, String> {
 /// Direction A, the reference's half: a deterministic function of the case descriptor and the artefact.
 fn a_judge(c: &Case, art: &Artefact, k: Option<&Counters>) -> Result<Vec<Fail>, String> {
     let r = c.cfg.revision();
-    let id0 = menu::id_of_len(c.id_len);
-    let plain = menu::build_doc(c.kind, &c.cfg, &id0, !c.via_file);
+    let id0 = c.id0();
+    let plain = c.plain();
     let up = rc::prep(r, &c.user)?;
     let op = rc::prep(r, &c.owner)?;
     let mut fails: Vec<Fail> = vec![];
@@ -364,6 +395,9 @@ fn a_judge(c: &Case, art: &Artefact, k: Option<&Counters>) -> Result<Vec<Fail>, 
         if uses_custom_identity(&c.cfg) {
             cands.push(("cfm-none", Quirks { cfm_identity_is_none: true, ..Default::default() }));
         }
+        if c.kind == DocKind::CryptArray {
+            cands.push(("crypt-decodeparms-array", Quirks { crypt_parms_array_ignored: true, ..Default::default() }));
+        }
         let finding = cands.into_iter().find(|(_, q)| ref_content(None, &plain, container, &enc, enc_id, &key, *q).is_none()).map(|x| x.0);
         fails.push(Fail { item: format!("A:content opened as {}", rname), detail: problem, finding });
     }
@@ -406,8 +440,8 @@ struct BDoc {
 
 fn build_b(c: &Case, v: BVariant) -> Result<BDoc, String> {
     let r = c.cfg.revision();
-    let id0 = menu::id_of_len(c.id_len);
-    let plain = menu::build_doc(c.kind, &c.cfg, &id0, !c.via_file);
+    let id0 = c.id0();
+    let plain = c.plain();
     let up = rc::prep(r, &c.user)?;
     let op = rc::prep(r, &c.owner)?;
     let mut cf: Vec<(Vec<u8>, Vec<u8>)> = vec![];
@@ -601,6 +635,9 @@ fn run_b(c: &Case, k: Option<&Counters>) -> Result<Vec<Fail>, String> {
     if uses_custom_identity(&c.cfg) {
         cands.push(("cfm-none", Box::new(|v| v.cfm_identity = true)));
     }
+    if c.kind == DocKind::CryptArray {
+        cands.push(("crypt-decodeparms-array", Box::new(|v| v.quirks.crypt_parms_array_ignored = true)));
+    }
     // variants to try: every single candidate, then every pair - evaluated lazily and cached
     let mut sets: Vec<Vec<usize>> = (0..cands.len()).map(|i| vec![i]).collect();
     for i in 0..cands.len() {
@@ -654,13 +691,258 @@ fn run_b(c: &Case, k: Option<&Counters>) -> Result<Vec<Fail>, String> {
 }
 
 // ---------------------------------------------------------------------------------------------
+// direction K: the state lopdf keeps after a decrypt
+
+/// What lopdf produced in direction K; the verdict is a deterministic function of it and the case.
+struct KArtefact {
+    /// encryption dictionary of the first protection (written by the reference or by lopdf)
+    first_dict: lopdf::Dictionary,
+    /// `EncryptionState::encode()` of the state lopdf kept
+    kept_dict: lopdf::Dictionary,
+    /// `EncryptionState::file_encryption_key()` of the state lopdf kept
+    kept_key: Vec<u8>,
+    /// the document encrypted again with the kept state (in memory, or after lopdf's writer and loader)
+    container: Document,
+}
+
+impl KArtefact {
+    fn to_json(&self) -> Value {
+        json!({
+            "first_dictionary": vharness::objjson::dict_to_json(&self.first_dict),
+            "kept_state_encoded": vharness::objjson::dict_to_json(&self.kept_dict),
+            "kept_file_key": hex(&self.kept_key),
+            "reencrypted_document": doc_to_portable(&self.container),
+        })
+    }
+    fn from_json(v: &Value) -> KArtefact {
+        KArtefact {
+            first_dict: vharness::objjson::dict_from_json(&v["first_dictionary"]),
+            kept_dict: vharness::objjson::dict_from_json(&v["kept_state_encoded"]),
+            kept_key: vharness::objjson::unhex(v["kept_file_key"].as_str().unwrap_or("")),
+            container: doc_from_portable(&v["reencrypted_document"]),
+        }
+    }
+}
+
+fn enc_dict_of(d: &Document) -> Result<(ObjectId, lopdf::Dictionary), String> {
+    let id = d.trailer.get(b"Encrypt").and_then(Object::as_reference).map_err(|e| format!("no /Encrypt reference: {}", e))?;
+    match d.objects.get(&id) {
+        Some(Object::Dictionary(x)) => Ok((id, x.clone())),
+        _ => Err("encryption dictionary object missing".into()),
+    }
+}
+
+const K_SKIP: &str = "kept-state case not applicable";
+
+/// Direction K, lopdf's half. Err(text containing K_SKIP) = the case does not arise (e.g. the loader decrypted
+/// the document although the case wants an explicit decrypt).
+fn k_produce(c: &Case) -> Result<Result<KArtefact, Vec<Fail>>, String> {
+    let r = c.cfg.revision();
+    rc::prep(r, &c.user)?;
+    rc::prep(r, &c.owner)?;
+    let plain = c.plain();
+    let fail = |item: &str, detail: String| Ok(Err(vec![Fail { item: item.to_string(), detail, finding: None }]));
+    // --- the first protection
+    let first = if c.kept_source == 'B' {
+        build_b(c, BVariant::default())?.doc
+    } else {
+        let state = match menu::build_state(&c.cfg, &plain, &c.user, &c.owner, c.perms) {
+            Ok(s) => s,
+            Err(e) => return fail("K:first protection (lopdf)", e),
+        };
+        let mut d = plain.clone();
+        match util::guard(|| d.encrypt(&state)) {
+            Ok(Ok(())) => d,
+            other => return fail("K:first protection (lopdf)", format!("{:?}", other)),
+        }
+    };
+    let (_, first_dict) = enc_dict_of(&first)?;
+    let target = if c.via_file {
+        match util::save_bytes(&first, c.table).and_then(|x| util::load(&x)) {
+            Ok(t) => t,
+            Err(e) => return fail("K:load", e),
+        }
+    } else {
+        first
+    };
+    // --- lopdf opens it
+    let opened = if c.kept_role == "loader" {
+        if target.is_encrypted() {
+            return Err(format!("{}: the loader did not decrypt", K_SKIP));
+        }
+        target
+    } else {
+        if !target.is_encrypted() {
+            return Err(format!("{}: the loader already decrypted", K_SKIP));
+        }
+        let pw = if c.kept_role == "owner" { &c.owner } else { &c.user };
+        match lopdf_open(&target, Ok(pw)) {
+            Ok(d) => d,
+            Err(e) => return fail(&format!("K:open as {}", c.kept_role), e),
+        }
+    };
+    if let Some(m) = diff_plain(&plain, &opened) {
+        return fail(&format!("K:open as {}", c.kept_role), m);
+    }
+    // --- the kept state, re-encoded and used again
+    let Some(kept) = opened.encryption_state.clone() else {
+        return fail("K:kept state", "Document::encryption_state is None after the document was decrypted".into());
+    };
+    let kept_dict = match util::guard(|| kept.encode()) {
+        Ok(Ok(d)) => d,
+        other => return fail("K:kept state", format!("EncryptionState::encode: {:?}", other.map(|x| x.map(|_| ())))),
+    };
+    let mut again = opened.clone();
+    match util::guard(|| again.encrypt(&kept)) {
+        Ok(Ok(())) => {}
+        other => return fail("K:encrypt with the kept state", format!("{:?}", other)),
+    }
+    // through the writer and the loader only when the loader will not decrypt it (both passwords non-empty)
+    let container = if c.via_file && !c.user.is_empty() && !c.owner.is_empty() {
+        match util::save_bytes(&again, c.table).and_then(|x| util::load(&x)) {
+            Ok(l) if l.is_encrypted() => l,
+            Ok(_) => return fail("K:reload of the re-encrypted document", "the loader opened it with the empty password although neither password is empty".into()),
+            Err(e) => return fail("K:reload of the re-encrypted document", e),
+        }
+    } else {
+        again
+    };
+    Ok(Ok(KArtefact { first_dict, kept_dict, kept_key: kept.file_encryption_key().to_vec(), container }))
+}
+
+/// Direction K, the reference's half, with the classification of failing items.
+fn k_judge(c: &Case, art: &KArtefact, k: Option<&Counters>) -> Result<Vec<Fail>, String> {
+    let mut fails = k_judge_q(c, art, k, Quirks::default())?;
+    if fails.is_empty() {
+        return Ok(fails);
+    }
+    // finding kept-state-empty-filter-name: the first protection leaves StmF or StrF out (default /Identity) AND
+    // the item passes when the empty name lopdf's kept state writes for it is read as /Identity
+    let absent = EncDict::parse(&art.first_dict).map(|e| e.v >= 4 && (e.stmf.is_none() || e.strf.is_none())).unwrap_or(false);
+    if absent {
+        let neutral = k_judge_q(c, art, None, Quirks { empty_filter_name_is_identity: true, ..Default::default() })?;
+        for f in fails.iter_mut() {
+            if !neutral.iter().any(|n| n.item == f.item) {
+                f.finding = Some("kept-state-empty-filter-name");
+            }
+        }
+    }
+    Ok(fails)
+}
+
+fn k_judge_q(c: &Case, art: &KArtefact, k: Option<&Counters>, q: Quirks) -> Result<Vec<Fail>, String> {
+    let r = c.cfg.revision();
+    let id0 = c.id0();
+    let plain = c.plain();
+    let up = rc::prep(r, &c.user)?;
+    let op = rc::prep(r, &c.owner)?;
+    let mut fails: Vec<Fail> = vec![];
+    let enc1 = match EncDict::parse(&art.first_dict) {
+        Ok(e) => e,
+        Err(e) => return Ok(vec![Fail { item: "K:first protection".into(), detail: format!("the reference cannot read the first encryption dictionary: {}", e), finding: None }]),
+    };
+    let key1 = match rc::derive(&enc1, &id0, &up, Role::User) {
+        Ok(key) => key,
+        Err(e) => return Ok(vec![Fail { item: "K:first protection".into(), detail: format!("the reference cannot open the first protection: {}", e), finding: None }]),
+    };
+    let method = |e: &EncDict, name: &Option<Vec<u8>>| match e.resolve(name.as_deref(), &q) {
+        Ok(m) => format!("{:?}", m),
+        Err(x) => format!("unresolvable ({})", x),
+    };
+    let eq = |fails: &mut Vec<Fail>, what: &str, name: &str, got: String, want: String| {
+        if got == want {
+            if let Some(k) = k {
+                inc(&k.fields_equal, 1);
+            }
+        } else {
+            fails.push(Fail { item: format!("K:field {} ({})", name, what), detail: format!("the first protection has {} , {} has {}", want, what, got), finding: None });
+        }
+    };
+    let (enc_id, cdict) = match enc_dict_of(&art.container) {
+        Ok(x) => x,
+        Err(e) => return Ok(vec![Fail { item: "K:re-encrypted document".into(), detail: e, finding: None }]),
+    };
+    let mut enc3: Option<EncDict> = None;
+    for (what, dict) in [("kept state re-encoded", &art.kept_dict), ("re-encrypted document", &cdict)] {
+        let e = match EncDict::parse(dict) {
+            Ok(e) => e,
+            Err(x) => {
+                fails.push(Fail { item: format!("K:dictionary ({})", what), detail: x, finding: None });
+                continue;
+            }
+        };
+        eq(&mut fails, what, "V", e.v.to_string(), enc1.v.to_string());
+        eq(&mut fails, what, "R", e.r.to_string(), enc1.r.to_string());
+        eq(&mut fails, what, "key length in bytes", e.n().to_string(), enc1.n().to_string());
+        eq(&mut fails, what, "P", e.p.to_string(), enc1.p.to_string());
+        eq(&mut fails, what, "O", hex(&e.o), hex(&enc1.o));
+        eq(&mut fails, what, "U", hex(&e.u), hex(&enc1.u));
+        eq(&mut fails, what, "OE", hex(&e.oe), hex(&enc1.oe));
+        eq(&mut fails, what, "UE", hex(&e.ue), hex(&enc1.ue));
+        eq(&mut fails, what, "Perms", hex(&e.perms), hex(&enc1.perms));
+        if enc1.v >= 4 {
+            eq(&mut fails, what, "EncryptMetadata", e.encrypt_metadata.to_string(), enc1.encrypt_metadata.to_string());
+            eq(&mut fails, what, "method of StmF", method(&e, &e.stmf), method(&enc1, &enc1.stmf));
+            eq(&mut fails, what, "method of StrF", method(&e, &e.strf), method(&enc1, &enc1.strf));
+        }
+        if what == "re-encrypted document" {
+            enc3 = Some(e);
+        }
+    }
+    eq(&mut fails, "kept state", "file key", hex(&art.kept_key), hex(&key1));
+    if c.id_shape.usable() {
+        eq(&mut fails, "re-encrypted document", "ID[0]", hex(&rc::id0_of(&art.container.trailer)), hex(&id0));
+    }
+    let Some(enc3) = enc3 else { return Ok(fails) };
+    // --- the reference opens the re-encrypted document with both passwords
+    let mut content_checked = false;
+    for role in [Role::User, Role::Owner] {
+        let rname = if role == Role::User { "user" } else { "owner" };
+        let absent_owner = role == Role::Owner && r <= 4 && op.is_empty() && !up.is_empty();
+        let pw: &[u8] = if role == Role::User || absent_owner { &up } else { &op };
+        let key = match rc::derive(&enc3, &id0, pw, role) {
+            Ok(key) => key,
+            Err(e) => {
+                fails.push(Fail { item: format!("K:authenticate as {} (re-encrypted document)", rname), detail: e, finding: None });
+                continue;
+            }
+        };
+        eq(&mut fails, "re-encrypted document", &format!("file key derived as {}", rname), hex(&key), hex(&key1));
+        if r >= 5 {
+            match rc::alg13(&enc3, &key) {
+                Ok(()) => {
+                    if let Some(k) = k {
+                        inc(&k.fields_validated, 1);
+                    }
+                }
+                Err(e) => fails.push(Fail { item: "K:field Perms (Algorithm 13, re-encrypted document)".into(), detail: e, finding: None }),
+            }
+        }
+        if !content_checked {
+            content_checked = true;
+            if let Some(problem) = ref_content(k, &plain, &art.container, &enc3, enc_id, &key, q) {
+                fails.push(Fail { item: format!("K:content opened as {} (re-encrypted document)", rname), detail: problem, finding: None });
+            }
+        }
+    }
+    Ok(fails)
+}
+
+fn run_k(c: &Case, k: Option<&Counters>) -> Result<Vec<Fail>, String> {
+    match k_produce(c)? {
+        Ok(a) => k_judge(c, &a, k),
+        Err(f) => Ok(f),
+    }
+}
+
+// ---------------------------------------------------------------------------------------------
 // enumeration
 
 fn run_case(c: &Case, k: Option<&Counters>) -> Result<Vec<Fail>, String> {
-    if c.dir == 'A' {
-        run_a(c, k)
-    } else {
-        run_b(c, k)
+    match c.dir {
+        'A' => run_a(c, k),
+        'K' => run_k(c, k),
+        _ => run_b(c, k),
     }
 }
 
@@ -755,6 +1037,213 @@ fn configs_b() -> Vec<Config> {
     configs_a().into_iter().filter(|c| !c.identity_in_cf).collect()
 }
 
+fn main_kinds() -> Vec<DocKind> {
+    let mut v = DocKind::ALL.to_vec();
+    v.push(DocKind::CryptArray);
+    v.push(DocKind::CryptBare);
+    v
+}
+
+fn pair_ok(r: i64, pname: &str, user: &str, owner: &str) -> bool {
+    !(r <= 4 && (!rc::pdfdoc_encodable(user) || !rc::pdfdoc_encodable(owner) || pname == "saslprep" || pname.starts_with("cut127")))
+}
+
+fn base_case(dir: char, cfg: &Config, kind: DocKind, pair: &(String, String, String), perms: u64) -> Case {
+    Case {
+        dir,
+        cfg: cfg.clone(),
+        kind,
+        pair: pair.0.clone(),
+        user: pair.1.clone(),
+        owner: pair.2.clone(),
+        perms,
+        id_len: 16,
+        via_file: false,
+        table: true,
+        pattern: 0,
+        // Table 20: Length belongs to V 2 and 3 (V 4 writers add it by habit; V 5 baseline has none)
+        write_length: !matches!(cfg.ver, Ver::R5 | Ver::V5),
+        omit_identity: false,
+        salts: None,
+        salt_class: None,
+        id_shape: IdShape::Hex,
+        kept_source: 'B',
+        kept_role: String::new(),
+    }
+}
+
+/// One configuration per key-derivation variant (the shapes of /ID and the nesting depth do not interact
+/// with the choice of filters beyond that).
+fn representative(c: &Config) -> bool {
+    match c.ver {
+        Ver::V1 => true,
+        Ver::V2(b) => b == 40 || b == 128,
+        Ver::V4 => c.stm == c.strf && c.stm != F::Identity && !c.custom_identity,
+        Ver::R5 => true,
+        Ver::V5 => c.stm == F::Aes256 && c.strf == F::Aes256 && !c.custom_identity,
+    }
+}
+
+/// Deep-nesting family: the two ladder documents (a string at every nesting depth 1..=120 resp. 1..=1100 in arrays,
+/// dictionaries, both alternating and a stream dictionary) in both directions, in memory, and the shallower one
+/// also through lopdf's writer and loader.
+fn deep_cases(run: &Run) -> Vec<Case> {
+    let mut out = vec![];
+    let pairs = pairs();
+    let all = menu::all_flags();
+    for dir in ['A', 'B'] {
+        let cfgs = if dir == 'A' { configs_a() } else { configs_b() };
+        for (ci, cfg) in cfgs.iter().enumerate() {
+            let r = cfg.revision();
+            if !run.thorough && !representative(cfg) && !(cfg.has_filters() && cfg.strf != cfg.stm && !cfg.custom_identity && cfg.em) {
+                continue;
+            }
+            for (ki, kind) in [DocKind::DeepLoadable, DocKind::DeepMemory].into_iter().enumerate() {
+                for pair in pairs.iter().filter(|p| p.0 == "distinct" || (run.thorough && r != 6 && (p.0 == "both_empty" || p.0 == "latin1"))) {
+                    let base = base_case(dir, cfg, kind, pair, all);
+                    let base = Case { pattern: (ci + ki) % 3, ..base };
+                    out.push(base.clone());
+                    if kind == DocKind::DeepLoadable {
+                        out.push(Case { via_file: true, table: (ci + ki) % 2 == 0, ..base });
+                    }
+                }
+            }
+        }
+    }
+    out
+}
+
+/// File-identifier family: the page document with the other shapes of the trailer's /ID entry. Revisions 5 and 6
+/// never use the identifier: every shape must work. Revisions <= 4 hash its first element (Algorithm 2): only the
+/// shapes that have a first string are in the domain (ISO 32000-1 requires /ID in an encrypted document).
+fn id_cases(run: &Run) -> Vec<Case> {
+    let mut out = vec![];
+    let pairs = pairs();
+    let all = menu::all_flags();
+    for dir in ['A', 'B'] {
+        let cfgs = if dir == 'A' { configs_a() } else { configs_b() };
+        for (ci, cfg) in cfgs.iter().filter(|c| representative(c)).enumerate() {
+            let r = cfg.revision();
+            for (si, shape) in IdShape::ALL.into_iter().enumerate() {
+                if shape == IdShape::Hex || (r <= 4 && !shape.usable()) {
+                    continue;
+                }
+                for (pi, pair) in pairs.iter().enumerate() {
+                    if !pair_ok(r, &pair.0, &pair.1, &pair.2) {
+                        continue;
+                    }
+                    // quick, revision 6: two password pairs
+                    if r == 6 && !run.thorough && pair.0 != "distinct" && pair.0 != "empty_user" {
+                        continue;
+                    }
+                    let base = Case { id_shape: shape, pattern: (ci + si + pi) % 3, ..base_case(dir, cfg, DocKind::Page, pair, all) };
+                    out.push(base.clone());
+                    if dir == 'B' || (!pair.1.is_empty() && !pair.2.is_empty()) {
+                        out.push(Case { via_file: true, table: (ci + si + pi) % 2 == 0, ..base });
+                    }
+                }
+            }
+        }
+    }
+    out
+}
+
+/// Direction K: (first protection by the reference or by lopdf) x configuration x {page document; the streams
+/// document (metadata stream) when EncryptMetadata is false} x password pairs x permission words x
+/// (opened by lopdf as user / as owner / by the loader's empty password) x {in memory, through writer+loader}.
+fn kept_cases(run: &Run) -> Vec<Case> {
+    let mut out = vec![];
+    let thorough = run.thorough;
+    let pairs = pairs();
+    let all = menu::all_flags();
+    for source in ['B', 'A'] {
+        let cfgs = if source == 'A' { configs_a() } else { configs_b() };
+        for (ci, cfg) in cfgs.iter().enumerate() {
+            let r = cfg.revision();
+            let r6 = r == 6;
+            let mut kinds = vec![DocKind::Page];
+            if cfg.has_filters() && !cfg.em {
+                kinds.push(DocKind::Streams);
+            }
+            for (ki, kind) in kinds.into_iter().enumerate() {
+                for (pi, pair) in pairs.iter().enumerate() {
+                    let (pname, user, owner) = (&pair.0, &pair.1, &pair.2);
+                    if !pair_ok(r, pname, user, owner) {
+                        continue;
+                    }
+                    if r6 && !thorough && pname != "distinct" && pname != "empty_user" {
+                        continue;
+                    }
+                    // permission words: the menu (thorough, R <= 5: all 256 conforming words) with the pair of two
+                    // distinct passwords on the page document, `all` elsewhere
+                    let perm_list: Vec<u64> = if pname == "distinct" && kind == DocKind::Page {
+                        if thorough && !r6 {
+                            let mut v = menu::perm_menu();
+                            for w in menu::perm_all256() {
+                                if !v.contains(&w) {
+                                    v.push(w);
+                                }
+                            }
+                            v
+                        } else if r6 && !thorough {
+                            vec![all, 0]
+                        } else {
+                            menu::perm_menu()
+                        }
+                    } else {
+                        vec![all]
+                    };
+                    // spellings of the reference-side dictionary the kept state has to survive
+                    let mut spellings: Vec<(bool, bool)> = vec![(!matches!(cfg.ver, Ver::R5 | Ver::V5), false)];
+                    if source == 'B' && pname == "distinct" && kind == DocKind::Page {
+                        if matches!(cfg.ver, Ver::V4 | Ver::V2(40)) {
+                            spellings.push((false, false));
+                        }
+                        if matches!(cfg.ver, Ver::R5 | Ver::V5) {
+                            spellings.push((true, false));
+                        }
+                        if identity_named_not_in_cf(cfg) {
+                            spellings.push((!matches!(cfg.ver, Ver::R5 | Ver::V5), true));
+                        }
+                    }
+                    for (mi, perms) in perm_list.iter().enumerate() {
+                        for (si, (write_length, omit_identity)) in spellings.iter().enumerate() {
+                            if si > 0 && mi > 0 {
+                                continue;
+                            }
+                            let base = Case {
+                                dir: 'K',
+                                kept_source: source,
+                                pattern: (ci + ki + pi + mi) % 3,
+                                write_length: *write_length,
+                                omit_identity: *omit_identity,
+                                ..base_case('K', cfg, kind, pair, *perms)
+                            };
+                            let owner_is_a_password = !(r <= 4 && owner.is_empty()) && owner != user;
+                            let mut roles = vec!["user"];
+                            if owner_is_a_password {
+                                roles.push("owner");
+                            }
+                            for role in roles {
+                                out.push(Case { kept_role: role.to_string(), ..base.clone() });
+                                // through the writer and the loader: both passwords non-empty (the loader does not decrypt)
+                                if *perms == all && si == 0 && !user.is_empty() && !owner.is_empty() && (thorough || !r6 || pname == "distinct") {
+                                    out.push(Case { kept_role: role.to_string(), via_file: true, table: (ci + ki + pi) % 2 == 0, ..base.clone() });
+                                }
+                            }
+                            // the state kept by the loader's own decrypt with the empty password
+                            if *perms == all && si == 0 && (user.is_empty() || (r >= 5 && owner.is_empty())) {
+                                out.push(Case { kept_role: "loader".to_string(), via_file: true, table: (ci + ki + pi) % 2 == 0, ..base.clone() });
+                            }
+                        }
+                    }
+                }
+            }
+        }
+    }
+    out
+}
+
 fn cases(run: &Run) -> Vec<Case> {
     let mut out = vec![];
     let thorough = run.thorough;
@@ -765,8 +1254,8 @@ fn cases(run: &Run) -> Vec<Case> {
         for (ci, cfg) in cfgs.iter().enumerate() {
             let r = cfg.revision();
             let r6 = r == 6;
-            for (ki, kind) in DocKind::ALL.iter().enumerate() {
-                if *kind == DocKind::Crypt && !cfg.has_filters() {
+            for (ki, kind) in main_kinds().iter().enumerate() {
+                if kind.needs_filters() && !cfg.has_filters() {
                     continue;
                 }
                 // compound deviations are kept apart (narrow classification): the stream-dictionary
@@ -876,6 +1365,9 @@ fn cases(run: &Run) -> Vec<Case> {
                                         omit_identity: *omit_identity,
                                         salts: None,
                                         salt_class: None,
+                                        id_shape: IdShape::Hex,
+                                        kept_source: 'B',
+                                        kept_role: String::new(),
                                     };
                                     out.push(base.clone());
                                     // through lopdf's writer and loader: permissions = all only (thorough: the menu)
@@ -921,6 +1413,9 @@ fn boundary_cases(sets: &[SaltSet]) -> Vec<Case> {
                 omit_identity: false,
                 salts: Some(set.salts),
                 salt_class: Some(set.class.to_string()),
+                id_shape: IdShape::Hex,
+                kept_source: 'B',
+                kept_role: String::new(),
             };
             out.push(base.clone());
             // the loader's own authenticate("") / decrypt("") runs the same hashes
@@ -954,15 +1449,28 @@ fn main() {
          file identifier length {16,0,32} x (B) salt/IV/padding pattern {00,FF,counting} x {in memory, through lopdf's writer+loader}; enumerated in \
          a fixed order, distinct by construction; a case is non-trivial when a password is non-empty or the configuration is not V1; \
          plus (B, revision 6) salt quadruples found by a deterministic search that make all four Algorithm 2.B hashes end on the boundary / at round 64 / after more than 64 rounds; \
+         plus three families in both directions: deep nesting (two documents with a string at EVERY nesting depth 1..120 resp. 1..1100 in arrays, dictionaries, both alternating and a stream dictionary), \
+         the shapes of the trailer's /ID entry (literal strings, empty first string, one element; for revisions 5/6 also absent, empty array, integer or name as first element, a string instead of an array), \
+         Crypt filter parameters in the array form of /DecodeParms and Crypt filters without /DecodeParms; \
+         plus direction K: {protected by the reference, protected by lopdf} x configuration x password pair x permission word x {opened by lopdf as user, as owner, by the loader's empty password} x {in memory, through writer+loader}: the state lopdf keeps is re-encoded and used to encrypt again, the reference compares every field with the first protection and opens the result with both passwords; \
          a failing direction-B case is executed three times; a failing direction-A case keeps the document lopdf wrote and the reference judges that artefact three times",
     );
     run.assume("the reference handler (harness/src/refcrypt.rs) is an independent reading of ISO 32000-1 7.6 / ISO 32000-2 7.6; its primitives are checked against FIPS/RFC known answers, RC4 against RFC 6229, and it round-trips on itself; no third-party encrypted PDF was available offline to anchor it further");
     run.assume("conforming permission words only (bits 7-8 and 13-32 set, bits 1-2 clear); passwords for R <= 4 are restricted to PDFDocEncoding characters (what the standard leaves undefined is C05's nonlatin-password-collapse)");
     run.assume("an empty owner password for R <= 4 means 'no owner password' (Algorithm 3 step a): the user password then opens the document in the owner role");
     run.assume("CFM /None and the predefined /Identity filter mean 'no encryption' (as in every reader known to the author); V4 uses a 128-bit file key whether or not /Length is written (ISO 32000 Table 20: Length applies to V 2 and 3)");
+    run.assume("revisions <= 4 are combined only with an /ID whose first element is a string (Algorithm 2 hashes it; ISO 32000-1 requires /ID in an encrypted document); revisions 5 and 6 never use the identifier and are combined with every shape");
+    run.assume("Document::encryption_state is documented as 'the parameters that were used to decrypt this document if the document has been decrypted'; direction K requires it to re-encode to the first protection's parameters. Whether the loader decrypts with the empty password is not prescribed: direction-K cases that presuppose the other behaviour are counted as not applicable");
     run.assume("lopdf's IVs, salts and paddings are random: ciphertext is never compared; O (R2-4), U (R2), U[0..16] (R3-4), P, V, R, Length, CFM, EncryptMetadata and the file key are compared for equality, R5/R6 U, O, UE, OE, Perms are validated");
     run.assume("documents that combine two catalogued deviations (strings in stream dictionaries together with a non-conforming Identity spelling) are left out so that every failing item is explained by exactly one finding");
     let mut list = cases(&run);
+    let (deep, idf, kept) = (deep_cases(&run), id_cases(&run), kept_cases(&run));
+    run.set("cases_deep_nesting_family", json!(deep.len()));
+    run.set("cases_file_identifier_family", json!(idf.len()));
+    run.set("cases_kept_state_direction_K", json!(kept.len()));
+    list.extend(deep);
+    list.extend(idf);
+    list.extend(kept);
     // salts for the termination boundary of Algorithm 2.B, found by a deterministic search at start-up
     let r6_pairs: Vec<(String, String, String)> = pairs();
     let found: std::sync::Mutex<Vec<SaltSet>> = std::sync::Mutex::new(vec![]);
@@ -997,7 +1505,7 @@ fn main() {
     );
     list.extend(bcases);
     let k = Counters::default();
-    let per_dir = [AtomicU64::new(0), AtomicU64::new(0)];
+    let per_dir = [AtomicU64::new(0), AtomicU64::new(0), AtomicU64::new(0)];
     let via_file = AtomicU64::new(0);
     let classes: std::sync::Mutex<BTreeMap<String, u64>> = std::sync::Mutex::new(BTreeMap::new());
     let counts: std::sync::Mutex<BTreeMap<String, u64>> = std::sync::Mutex::new(BTreeMap::new());
@@ -1008,6 +1516,7 @@ fn main() {
         let t0 = std::time::Instant::now();
         // direction A: lopdf's half runs once (it is randomised); the verdict is a function of what it produced
         let mut artefact: Option<Artefact> = None;
+        let mut k_artefact: Option<KArtefact> = None;
         let res = if c.dir == 'A' {
             match a_produce(c) {
                 Err(e) => Err(e),
@@ -1015,6 +1524,16 @@ fn main() {
                 Ok(Ok(a)) => {
                     let r = a_judge(c, &a, Some(&k));
                     artefact = Some(a);
+                    r
+                }
+            }
+        } else if c.dir == 'K' {
+            match k_produce(c) {
+                Err(e) => Err(e),
+                Ok(Err(f)) => Ok(f),
+                Ok(Ok(a)) => {
+                    let r = k_judge(c, &a, Some(&k));
+                    k_artefact = Some(a);
                     r
                 }
             }
@@ -1027,13 +1546,15 @@ fn main() {
                 // only the documented skip is tolerated
                 if e.contains("cannot serve as a container") || e.contains("outside PDFDocEncoding") {
                     inc(&k.skipped, 1);
+                } else if e.contains(K_SKIP) {
+                    inc(&k.kept_not_applicable, 1);
                 } else {
                     eprintln!("MACHINERY: case {} cannot be built: {}", c.to_json(), e);
                     std::process::exit(3);
                 }
             }
             Ok(fails) => {
-                inc(&per_dir[(c.dir == 'B') as usize], 1);
+                inc(&per_dir[match c.dir { 'A' => 0, 'B' => 1, _ => 2 }], 1);
                 *counts.lock().unwrap().entry(format!("{} R{}", c.dir, c.cfg.revision())).or_insert(0) += 1;
                 if c.via_file {
                     inc(&via_file, 1);
@@ -1047,11 +1568,14 @@ fn main() {
                     // Direction A: the reference is re-run on the *captured* encrypted document; a different
                     // outcome on the same artefact would be nondeterminism of the harness itself.
                     for _ in 0..2 {
-                        let again = match &artefact {
-                            Some(a) => a_judge(c, a, None),
+                        let again = match (&artefact, &k_artefact) {
+                            (Some(a), _) => a_judge(c, a, None),
+                            (_, Some(a)) => k_judge(c, a, None),
                             // lopdf refused to build the state or to encrypt: there is no artefact to re-judge
-                            None if c.dir == 'A' => Ok(fails.clone()),
-                            None => run_case(c, None),
+                            (None, None) if c.dir == 'A' => Ok(fails.clone()),
+                            // direction K without an artefact: lopdf's half failed; it is run again (the item
+                            // names the failing step, which does not depend on the random IVs)
+                            (None, None) => run_case(c, None),
                         }
                         .map(|f| signature(&f));
                         if again.as_ref().ok() != Some(&sig) {
@@ -1073,6 +1597,9 @@ fn main() {
                         let mut cj = c.to_json();
                         cj["item"] = json!(f.item);
                         if let Some(a) = &artefact {
+                            cj["artefact"] = a.to_json();
+                        }
+                        if let Some(a) = &k_artefact {
                             cj["artefact"] = a.to_json();
                         }
                         run.fail(f.finding, cj, &format!("[{}] {}", f.item, f.detail), expected_text(&f.item));
@@ -1099,6 +1626,9 @@ fn main() {
     );
     run.set("cases_direction_A", json!(per_dir[0].load(Ordering::Relaxed)));
     run.set("cases_direction_B", json!(per_dir[1].load(Ordering::Relaxed)));
+    run.set("cases_direction_K_kept_state", json!(per_dir[2].load(Ordering::Relaxed)));
+    run.set("cases_direction_K_not_applicable_loader_behaviour", json!(k.kept_not_applicable.load(Ordering::Relaxed)));
+    run.set("file_identifier_shapes", json!(IdShape::ALL.iter().map(|x| x.name()).collect::<Vec<_>>()));
     run.set("cases_through_writer_and_loader", json!(via_file.load(Ordering::Relaxed)));
     run.set("fields_compared_equal", json!(k.fields_equal.load(Ordering::Relaxed)));
     run.set("fields_validated", json!(k.fields_validated.load(Ordering::Relaxed)));
@@ -1126,11 +1656,13 @@ fn replay(run: &Run, path: &std::path::Path) -> ! {
     let c = Case::from_json(&case);
     // direction A with a captured artefact: the reference judges exactly the document lopdf wrote then
     let captured = if c.dir == 'A' && case["artefact"].is_object() { Some(Artefact::from_json(&case["artefact"])) } else { None };
-    let eval = |c: &Case| match &captured {
-        Some(a) => a_judge(c, a, None),
-        None => run_case(c, None),
+    let k_captured = if c.dir == 'K' && case["artefact"].is_object() { Some(KArtefact::from_json(&case["artefact"])) } else { None };
+    let eval = |c: &Case| match (&captured, &k_captured) {
+        (Some(a), _) => a_judge(c, a, None),
+        (_, Some(a)) => k_judge(c, a, None),
+        _ => run_case(c, None),
     };
-    if captured.is_some() {
+    if captured.is_some() || k_captured.is_some() {
         println!("(judging the captured encrypted document; lopdf is not asked to encrypt again)");
     }
     let a = eval(&c);
